@@ -5,6 +5,7 @@ package zsim
 
 import (
 	"fmt"
+	"os"
 	"runtime"
 	"runtime/debug"
 	"strings"
@@ -622,7 +623,7 @@ func Since(t time.Time) time.Duration { return Now().Sub(t) }
 func Exit(code int) {
 	s := S
 	if s == nil {
-		panic(fmt.Sprintf("zsim.Exit(%d) outside a simulation", code))
+		os.Exit(code) // pass-through outside a simulation
 	}
 	if s.dying {
 		runtime.Goexit()
